@@ -247,7 +247,7 @@ Proof.
 Qed.
 
 Lemma g_code_with_refresh n now cfg c g : g_code (with_refresh n now cfg c g) = g_code g.
-Proof. Local Transparent with_refresh. unfold with_refresh. destruct (should_issue_refresh _ _ _); reflexivity. Qed.
+Proof. Local Transparent with_refresh. unfold with_refresh. destruct (should_issue_refresh _ _ _ _); reflexivity. Qed.
 Local Opaque with_refresh.
 
 Lemma code_side n st s : fresh n st -> In s (st_asess st) -> is_nil (a_code s) = false ->
